@@ -138,31 +138,71 @@ func (a *NilAn) returnTuples(ret *ssa.Return, f Facts) []Tuple {
 	results := ReturnResults(ret)
 	n := len(results)
 	if n >= 2 {
-		// all results extracted from one call?
-		var call ssa.Value
-		same := true
-		for i, r := range results {
-			e, ok := r.(*ssa.Extract)
-			if !ok || e.Index != i {
-				same = false
-				break
-			}
-			if call == nil {
-				call = e.Tuple
-			} else if call != e.Tuple {
-				same = false
+		// two or more results extracted from one call (in the callee's order, a selection of its
+		// results, or mixed with other values: `r, err := sm.Source(); return sm, r, err`): the
+		// callee's correlation between those results is kept, the others are evaluated on their own
+		count := map[ssa.Value]int{}
+		for _, r := range results {
+			if e, ok := r.(*ssa.Extract); ok {
+				count[e.Tuple]++
 			}
 		}
-		if same && call != nil {
-			if c, ok := call.(*ssa.Call); ok {
-				if ts, known := a.callTuples(c); known {
-					var out []Tuple
-					for _, t := range a.consistent(c, ts, f) {
-						via := shortName(c) + "←" + t.Via
-						out = append(out, Tuple{S: t.S, Ret: ret, Via: via})
+		var call *ssa.Call
+		for t, k := range count {
+			if c, ok := t.(*ssa.Call); ok && k >= 2 && (call == nil || k > count[call]) {
+				call = c
+			}
+		}
+		if call != nil {
+			if ts, known := a.callTuples(call); known {
+				var out []Tuple
+				seenK := map[string]bool{}
+				for _, t := range a.consistent(call, ts, f) {
+					sel := make([]NS, n)
+					okSel := true
+					for i, r := range results {
+						if e, ok := r.(*ssa.Extract); ok && e.Tuple == ssa.Value(call) {
+							if e.Index >= len(t.S) {
+								okSel = false
+								break
+							}
+							sel[i] = t.S[e.Index]
+							continue
+						}
+						if !isNilable(r.Type()) {
+							sel[i] = NSNon
+							continue
+						}
+						sel[i] = a.Eval(r, f, ret.Block())
+						if sel[i] == 0 {
+							okSel = false
+							break
+						}
 					}
-					return out
+					if !okSel {
+						continue
+					}
+					nt := Tuple{S: sel, Ret: ret, Via: shortName(call) + "←" + t.Via}
+					if !seenK[nt.key()] {
+						seenK[nt.key()] = true
+						out = append(out, nt)
+					}
 				}
+				return out
+			}
+		}
+	}
+	// results produced inside a closure that a runner executes:
+	//   err = mb.view(func() (err error) { msg, err = mb.getMessage(id); return err }); return msg, err
+	// is `return mb.getMessage(id)` as far as the (value, error) correlation goes
+	if n >= 2 {
+		if c2 := a.viaRunnerClosure(results); c2 != nil {
+			if ts, known := a.callTuples(c2); known {
+				var out []Tuple
+				for _, t := range ts {
+					out = append(out, Tuple{S: t.S, Ret: ret, Via: shortName(c2) + "←" + t.Via})
+				}
+				return out
 			}
 		}
 	}
@@ -424,6 +464,9 @@ type PathState struct {
 	// Bool: boolean values known on this path (set by a Fork hook, e.g. the `done` result of
 	// a helper); a branch on such a value takes only the matching edge
 	Bool map[ssa.Value]bool
+	// Int: integer values known on this path (set by a Fork hook: the constant a classifying
+	// helper returned, e.g. storeResultOf(err) == storeMissing)
+	Int map[ssa.Value]int64
 }
 
 // Paths enumerates the paths of fn (each CFG edge at most once per path), maintaining nil
@@ -464,11 +507,23 @@ func (a *NilAn) Paths(fn *ssa.Function, visit func(in ssa.Instruction, ps *PathS
 			if used[e] {
 				continue
 			}
-			nps := &PathState{Nil: ps.Nil, Sent: ps.Sent, Trace: ps.Trace, Bool: ps.Bool}
+			nps := &PathState{Nil: ps.Nil, Sent: ps.Sent, Trace: ps.Trace, Bool: ps.Bool, Int: ps.Int}
 			if len(b.Succs) == 2 {
 				if v, pol, ok := CondTruth(b, k); ok {
 					if bv, has := ps.Bool[v]; has && bv != pol {
 						continue
+					}
+				}
+				// a comparison of a known integer with a constant
+				if r, ok := EdgeRel(b, k); ok && (r.Op == token.EQL || r.Op == token.NEQ) && len(ps.Int) > 0 {
+					x, y := r.X, r.Y
+					if _, isC := ConstInt(x); isC {
+						x, y = y, x
+					}
+					if kc, isC := ConstInt(y); isC {
+						if kv, has := ps.Int[x]; has && (kv == kc) != (r.Op == token.EQL) {
+							continue
+						}
 					}
 				}
 				var feasible bool
@@ -570,4 +625,86 @@ func isSentinelLoad(v ssa.Value) bool {
 	}
 	_, isG := u.X.(*ssa.Global)
 	return isG && types.Identical(u.Type(), types.Universe.Lookup("error").Type())
+}
+
+// viaRunnerClosure recognises results that all come from one call made inside a closure that a
+// runner executes: the last result is the runner's result (the closure returns result n-1 of
+// that call on every return), every other result i is a variable the closure assigns exactly
+// once, from result i of the same call. It returns that call, or nil.
+func (a *NilAn) viaRunnerClosure(results []ssa.Value) *ssa.Call {
+	n := len(results)
+	// the runner call behind the last result (directly, or through a single-store local)
+	last := results[n-1]
+	if ad := LoadAddr(last); ad != nil {
+		if cell := CellOf(ad); cell != nil {
+			if sts := CellStores(cell); len(sts) == 1 {
+				last = sts[0].Val
+			}
+		}
+	}
+	rc, ok := last.(*ssa.Call)
+	if !ok {
+		return nil
+	}
+	g := StaticCallee(rc.Common())
+	pi := RunnerParam(g)
+	if pi < 0 || pi >= len(rc.Call.Args) {
+		return nil
+	}
+	h, _, ok := FuncValueOf(rc.Call.Args[pi])
+	if !ok || h == nil || len(h.Blocks) == 0 || h.Signature.Results().Len() != 1 {
+		return nil
+	}
+	// every return of the closure yields result n-1 of one and the same call
+	var inner *ssa.Call
+	okAll, nRet := true, 0
+	EachInstr(h, func(in ssa.Instruction) {
+		ret, isRet := in.(*ssa.Return)
+		if !isRet || IsRecoverBlock(ret.Block()) {
+			return
+		}
+		nRet++
+		rv := ReturnResults(ret)[0]
+		if ad := LoadAddr(rv); ad != nil {
+			if cell := CellOf(ad); cell != nil {
+				if sts := CellStores(cell); len(sts) == 1 {
+					rv = sts[0].Val
+				}
+			}
+		}
+		e, isE := rv.(*ssa.Extract)
+		if !isE || e.Index != n-1 {
+			okAll = false
+			return
+		}
+		c2, isC := e.Tuple.(*ssa.Call)
+		if !isC || inner != nil && inner != c2 {
+			okAll = false
+			return
+		}
+		inner = c2
+	})
+	if !okAll || nRet == 0 || inner == nil || inner.Parent() != h {
+		return nil
+	}
+	// the other results: variables assigned once, in the closure, from the same call
+	for i := 0; i < n-1; i++ {
+		ad := LoadAddr(results[i])
+		if ad == nil {
+			return nil
+		}
+		cell := CellOf(ad)
+		if cell == nil {
+			return nil
+		}
+		sts := CellStores(cell)
+		if len(sts) != 1 || sts[0].Parent() != h {
+			return nil
+		}
+		e, isE := sts[0].Val.(*ssa.Extract)
+		if !isE || e.Index != i || e.Tuple != ssa.Value(inner) {
+			return nil
+		}
+	}
+	return inner
 }
